@@ -15,7 +15,7 @@ checks = {
          'Every if-feature expression with <= 3 (thorough: <= 4) operators over 3 features is loaded under all 8 assignments with allow-list, deny-list and default configuration; each guardable statement kind and features of an imported module are covered; malformed expressions must be load errors; for deviations the canonical dumps with and without the deviation may differ in exactly the named paths (incl. several deviate kinds in one deviation).',
          'exhaustive for the stated expression bound only; deviations are a fixed catalog of 30', 'DESIGN.md 3/C11'),
  'C20': ('exploration', 'Go race detector on a -race build of the harness + determinism oracle (byte equality with sequential baseline) + reflection fingerprint of the compiled module',
-         'Each case runs in a fresh -race worker process: concurrent loads as the first action of the process, concurrent use of one shared module from separate browsers/stores (incl. concurrent FIRST use of a fresh module with union/leafref/enum leaves), and both mixed, for G in {2,8,32} and GOMAXPROCS in {2,4,16}. Race reports are collected from the detector logs and de-duplicated by innermost library frame pair; overlap of operations is measured with a logical clock and reported in the evidence.',
+         'Each case runs in a fresh -race worker process: concurrent loads as the first action of the process, concurrent use of one shared module from separate browsers/stores (incl. concurrent FIRST use of a fresh module with union/leafref/enum leaves), and both mixed, for G in {2,8,32} and GOMAXPROCS in {2,4,16}; every other client also sends requests that are refused; the module exported as data and the copy overwritten must leave the module as it was. Race reports are collected from the detector logs and de-duplicated by innermost library frame pair; overlap of operations is measured with a logical clock and reported in the evidence.',
          'happens-before detection only sees the interleavings that occurred; overlap counts are in the evidence file', 'DESIGN.md 3/C20'),
  'C05': ('exploration', 'runtime monitor: independent membership evaluator (math/big intervals, code-point lengths, anchored patterns) vs error result and store content on 5 write paths',
          'For generated restriction chains (base type x up to 3 typedef levels; ranges with alternatives, open ends, min/max, 64-bit and decimal64 bounds; lengths; patterns incl. invert-match; enum/bits/identityref) every boundary candidate is written through Set, SetValue, JSON, XML and node sources; a value outside the effective type must be rejected and leave the stored value unchanged; no check may panic. Over-rejections are counted, not alarmed.',
@@ -25,7 +25,7 @@ checks = {
          'trusts the renderer inverse (string escaping rules of RFC 7950 6.1.3); constructs the grammar rejects (empty bodies of statements with mandatory sub-statements, concatenation where the grammar takes a single token) are outside the generator domain', 'DESIGN.md 3/C06'),
  'C07': ('exploration', 'runtime monitor: model projection of the unconstrained tree vs token-decoded JSON of the constrained read (leaf path/value sets); store immutability; invalid values must error',
          'content, depth, fields, fc.xfields, with-defaults=trim, fc.range and fc.max-node-count singly, in pairs and triples, in one query or applied stepwise to an already constrained selection, on root / container / list / entry targets; the set of (path,value) leaves of the answer must equal the model projection; reads must not modify the store; invalid parameter values must be errors.',
-         'trusts the projection model (c07params.project); empty containers compared at info level; window convention [a,b)', 'DESIGN.md 3/C07'),
+         'trusts the projection model (c07params.project); empty containers compared at info level; window convention [a,b); fc.range windows the named list only; invalid values also through Constrain', 'DESIGN.md 3/C07'),
  'C13': ('exploration', 'crash/hang monitor: recovered panics, worker death, per-input cpu+rss watchdog; store read-back after every request',
          'Hostile request content against valid schemas: JSON shape mismatches at every document position x 10 kinds, missing/duplicate keys, all truncations and single-character mutations of documents, paths and queries, grammar-fuzz catalogs for paths, queries and XPath, XML shape mismatches, SetValue with every Go kind; any panic, fatal error or cpu/memory overrun is a violation; read-only requests must leave the store unchanged and the store must stay exportable.',
          'workers are separate processes; watchdog thresholds 20 s cpu / 3 GiB rss per input; targets: reference store and the reflection nodes over Go values', 'DESIGN.md 3/C13'),
@@ -40,19 +40,19 @@ checks = {
          'trusts encoding/xml; characters outside XML 1.0 excluded; namespace of grouping-derived nodes accepted as defining or using module', 'DESIGN.md 3/C19'),
  'C08': ('exploration', 'runtime monitor: model lookup oracle over every addressable node x path spelling x store; store immutability check',
          'For every container, list, entry and leaf of generated trees, Find with plain / module-qualified / trailing-slash / fully percent-encoded spellings, ../ paths from the node itself and paths with query parameters must select exactly the model node (schema identity, structured path chain, key values, exported content), the rendered path must lead back, absent keys select nothing, unknown names and names qualified with an unknown module are not-found errors.',
-         'trusts the model tree and net/url escaping; stores: reference store, JSON reader, nodeutil.Reflect / nodeutil.Node over Go maps, slices and structs; schemas with an augmenting module, a submodule, a prefix that differs from the module name', 'DESIGN.md 3/C08'),
+         'trusts the model tree and net/url escaping; stores: reference store, JSON reader, XML document (key texts also in non-canonical spellings), nodeutil.Reflect / nodeutil.Node over Go maps, slices and structs; schemas with an augmenting module, a submodule, a prefix that differs from the module name', 'DESIGN.md 3/C08'),
  'C09': ('exploration', 'runtime monitor: invariant scan of the target store after every step of an upsert history + reference model (SwitchCase)',
          'After every upsert of histories of 2..12 steps that alternate cases (nested choices, shorthand cases, cases with leaves/leaf-lists/containers/lists, choices in lists) the store is scanned for choices holding data of two cases, compared with the model and exported.',
-         'trusts dp.Apply/clearOtherCases (model); targets: reference store (also one that hands out nodes for containers holding nothing yet), nodeutil.Reflect and nodeutil.Node over Go maps (read back with package reflect)', 'DESIGN.md 3/C09'),
+         'trusts dp.Apply/clearOtherCases (model); targets: reference store (also one that hands out nodes for containers holding nothing yet, and one whose new nodes hold data of a case already), nodeutil.Reflect and nodeutil.Node over Go maps (read back with package reflect)', 'DESIGN.md 3/C09'),
  'C12': ('fault_enumeration', 'runtime monitor: recorded callback trace + offline trace checker; every fault position k of every scenario enumerated',
-         'Each scenario (operation x entry point x trees) is run once fault-free to measure its callback trace, then once per callback position with that callback failing on the source or target side; the offline checker verifies begin/end pairing per node identity, the set of notified nodes, wrapping of the injected error and absence of writes after the failure. Exhaustive in k per scenario; scenarios are sampled.',
+         'Each scenario (operation x entry point x trees) is run once fault-free to measure its callback trace, then once per callback position with that callback failing on the source or target side; the offline checker verifies begin/end pairing per node identity, the set of notified nodes (none but edited nodes and the edit root's ancestors, and each of those ancestors), wrapping of the injected error and absence of writes after the failure. Exhaustive in k per scenario; scenarios are sampled.',
          'trusts the recording wrapper (pass-through) and the reference store', 'DESIGN.md 3/C12'),
  'C18': ('exploration', 'runtime monitor: reference model (delete/replace) vs store read directly after every step + key-uniqueness scan + Find probes',
          'Histories of 3..15 delete / replace / insert / upsert operations (first, middle, last, only entry; whole list; container; delete-then-reinsert; several deletes through one held list selection; payloads stating another key than that of the addressed entry) are replayed against model and library; after each step the store equals the model, no list holds a duplicate key, the removed node is no longer found and remaining nodes are.',
          'trusts dp.DeleteAt/Apply (model); stores: reference store, nodeutil.Reflect / nodeutil.Node over Go maps, slices and reflect.StructOf structs (zero value = unset in struct shape)', 'DESIGN.md 3/C18'),
  'C03': ('exploration', 'runtime monitor: executable reference model (keyed deep merge) vs target store read directly; error class via errors.Is',
          'Every edit call on a generated (schema, target, source, strategy, entry point, direction, source implementation) tuple and on histories of up to 6 such calls is compared with an executable model written from the statement; the target is a harness store read without any library read path. Held on the executions observed.',
-         'trusts the model dp.Apply (60 lines); targets: reference store and the reflection nodes over Go maps / slices / structs, sources also JSON / XML readers and map-shaped reflection nodes; domain: schemas without choice/when, key-preserving edits', 'DESIGN.md 3/C03'),
+         'trusts the model dp.Apply (60 lines); targets: reference store and the reflection nodes over Go maps / slices / structs, sources also JSON / XML readers and map-shaped reflection nodes; every third schema has choices (the model ends the data of the other cases for every strategy); half of the JSON sources use RFC 7951 qualified names; domain: no when, key-preserving edits', 'DESIGN.md 3/C03'),
  'C04': ('exploration', 'runtime monitor: write-logging capture store + encoding/json token-stream decoder vs model tree; round trip through the library reader',
          'Exports of generated trees (all leaf types, nested/compound-key lists, choices, augmenting module) are captured by a store that logs every write (exactly-once, schema order) and JSON output is decoded token by token with the standard library and compared with the model; the writer output is fed back through ReadJSON and exported again.',
          'trusts encoding/json and the model tree; decimal64 compared at float64 precision; every fourth case also exports from a reflection node over Go values', 'DESIGN.md 3/C04'),
